@@ -297,6 +297,28 @@ static inline uint8_t pattern_byte(uint64_t a) {
   return (uint8_t)((x >> 56) ^ (x >> 24) ^ a);
 }
 
+// A thread that is slow to act on a stop request: it vforks a child that sleeps `ms` milliseconds,
+// so the thread sits in an uninterruptible (killable-only) kernel wait for that long.
+static volatile int vfork_tid;
+static volatile uint64_t vfork_done;
+#include <sys/wait.h>
+#include <time.h>
+static void *vfork_thread(void *arg) {
+  long ms = (long)arg;
+  vfork_tid = (int)syscall(SYS_gettid);
+  pid_t c = vfork();
+  if (c == 0) {
+    struct timespec ts = {ms / 1000, (ms % 1000) * 1000000L};
+    syscall(SYS_nanosleep, &ts, 0);
+    _exit(0);
+  }
+  int st;
+  if (c > 0) waitpid(c, &st, 0);
+  __atomic_add_fetch(&vfork_done, 1, __ATOMIC_SEQ_CST);
+  for (;;) pause();
+  return NULL;
+}
+
 static void cmd_mkthread(const char *kind) {
   int k = !strcmp(kind, "spin") ? 0 : !strcmp(kind, "block") ? 1 : !strcmp(kind, "count") ? 2 : -1;
   if (k < 0) return reply("err kind");
@@ -528,6 +550,14 @@ int main(int argc, char **argv) {
       reply("ok");
     } else if (!strcmp(cmd, "auxv")) {
       reply("ok %lu %lu %lu %lu", getauxval(3), getauxval(5), getauxval(33), getauxval(9));
+    } else if (!strcmp(cmd, "vforkwait")) {
+      pthread_t th;
+      vfork_tid = 0;
+      if (pthread_create(&th, NULL, vfork_thread, (void *)strtol(a1, NULL, 0))) reply("err pthread_create");
+      else {
+        while (!vfork_tid) usleep(100);
+        reply("ok %d %p", vfork_tid, (void *)&vfork_done);
+      }
     } else if (!strcmp(cmd, "leaderexit")) {
       reply("ok");
       pthread_exit(NULL);
